@@ -8,8 +8,11 @@ import (
 	"hash/crc32"
 	"io"
 	"net/http"
+	"net/http/httptest"
 	"os"
+	"path/filepath"
 	"runtime"
+	"slices"
 	"strings"
 	"syscall"
 	"testing"
@@ -364,4 +367,394 @@ func c15BigBodies(t *testing.T, out *vfOut, srv *c15Server) {
 			Desc:       map[string]any{"big_body_bytes": size, "numbered_rule_lines": lines, "last_rule": lastRule},
 		})
 	}
+}
+
+// c15OverlapAdd (round 8): the forced refresh of block list 1 is stalled by its
+// source in the middle of a line, its working copies taken; meanwhile block
+// list 2 is added to the SAME array as add_url does it (update, then the real
+// filterAdd, which appends; the array is full, so the append moves it to new
+// memory; engine rebuilt); the source goes on with changed content, and the
+// copy-back of the refresh has to reach the live entry.  Then the same content
+// again: nothing may be rewritten.  For the model the added list is one that
+// was there, disabled and never stored, and is enabled by set_url (the same
+// download into the entry, the same rebuild); the later pass finds it
+// unchanged, so the serialised history has the same outcome.
+func c15OverlapAdd(t *testing.T, out *vfOut, srv *c15Server) {
+	prevProcs := runtime.GOMAXPROCS(1)
+	defer runtime.GOMAXPROCS(prevProcs)
+
+	oldA := "||p3.example^\n"
+	newA := "||" + strings.Repeat("a", 40) + ".example^\n||p2.example^\n||p1.example^\n"
+	txtC := "! Title: Added\n||p3.example^\n||" + strings.Repeat("c", 50) + ".example^\n"
+	normC := "||p3.example^\n||" + strings.Repeat("c", 50) + ".example^\n"
+	const cutA = 30
+
+	dir := t.TempDir()
+	conf := &Config{
+		DataDir:                    dir,
+		HTTPClient:                 &http.Client{Timeout: 30 * time.Second, Transport: &http.Transport{DisableKeepAlives: true}},
+		FiltersUpdateIntervalHours: 24,
+		FilteringEnabled:           true,
+		Filters:                    []FilterYAML{{Enabled: true, URL: srv.url + "/l/1", Name: "list 1", Filter: Filter{ID: 1}}},
+	}
+	d, err := New(conf, nil)
+	if err != nil {
+		t.Fatal(err)
+	}
+	defer d.Close()
+	d.EnableFilters(false)
+
+	monOK, monMsg, monKey := true, "", ""
+	bad := func(key, msg string) {
+		if monOK {
+			monOK, monMsg, monKey = false, msg, key
+		}
+	}
+	observe := func() map[int64]c15Obs {
+		m := map[int64]c15Obs{}
+		for i := range d.conf.Filters {
+			f := &d.conf.Filters[i]
+			o := c15Obs{count: f.RulesCount, sum: f.checksum, name: f.Name, enabled: f.Enabled, url: int64(f.ID)}
+			if b, rerr := os.ReadFile(f.Path(dir)); rerr == nil {
+				o.file, o.exists = b, true
+				if fi, serr := os.Stat(f.Path(dir)); serr == nil {
+					o.ino = fi.Sys().(*syscall.Stat_t).Ino
+				}
+			}
+			m[int64(f.ID)] = o
+		}
+		return m
+	}
+	verdicts := func() (vs []string) {
+		for _, p := range c15Probes {
+			res, cerr := d.CheckHost(p, dns.TypeA, &Settings{FilteringEnabled: true, ProtectionEnabled: true})
+			v := 0
+			switch {
+			case cerr != nil:
+				v = 9
+			case res.Reason == FilteredBlockList:
+				v = 1
+			case res.Reason == NotFilteredAllowList:
+				v = 2
+			}
+			vs = append(vs, vfN(uint64(v)))
+		}
+		return vs
+	}
+	var defs []vfDef
+	obsTerms := func(prev, cur map[int64]c15Obs) (ts []string) {
+		for _, id := range []int64{1, 2} {
+			if _, ok := cur[id]; ok {
+				ts = append(ts, c15ObsTerm(&defs, id, prev[id], cur[id]))
+			}
+		}
+		return ts
+	}
+	body := func(s string) string { return vfApp("OBody", vfBytes(s), vfBool(false)) }
+	setScripts := func(m map[string]c15Script) {
+		srv.mu.Lock()
+		for k := range srv.scripts {
+			delete(srv.scripts, k)
+		}
+		for k, v := range m {
+			srv.scripts[k] = v
+		}
+		srv.stalled, srv.resume = make(chan struct{}, 1), make(chan struct{})
+		srv.mu.Unlock()
+	}
+	pass := func(prev map[int64]c15Obs, a string) (step string, cur map[int64]c15Obs, upd int) {
+		upd, netErr, _ := d.tryRefreshFilters(true, false, true)
+		cur = observe()
+		return vfApp("RStep", vfBool(true), vfBool(false), vfBool(true), vfList("N", nil),
+			vfList("N * outcome", []string{vfPair(vfN(1), body(a)), vfPair(vfN(2), body(txtC))}),
+			vfN(uint64(upd)), vfBool(netErr), vfList("lobs", obsTerms(prev, cur)), vfList("N", verdicts())), cur, upd
+	}
+
+	var steps []string
+	prev := observe()
+	setScripts(map[string]c15Script{"1": {Kind: "ok", Content: oldA}})
+	st, cur, _ := pass(prev, oldA)
+	steps, prev = append(steps, st), cur
+
+	// The array is full: the append of filterAdd moves it.
+	d.conf.Filters = slices.Clip(d.conf.Filters)
+	setScripts(map[string]c15Script{"1": {Kind: "ok", Content: newA, gateAt: cutA}, "2": {Kind: "ok", Content: txtC}})
+	type refreshRes struct {
+		upd    int
+		netErr bool
+	}
+	done := make(chan refreshRes, 1)
+	go func() {
+		var r refreshRes
+		r.upd, r.netErr, _ = d.tryRefreshFilters(true, false, true)
+		done <- r
+	}()
+	select {
+	case <-srv.stalled:
+	case <-time.After(60 * time.Second):
+		t.Fatal("the refresh has not reached its source")
+	}
+	for i := 0; i < 10; i++ {
+		runtime.Gosched()
+		time.Sleep(10 * time.Millisecond)
+	}
+	// add_url, as handleFilteringAddURL does it after its checks.
+	filt := FilterYAML{Enabled: true, URL: srv.url + "/l/2", Name: "list 2", Filter: Filter{ID: 2}}
+	okAdd, aerr := d.update(&filt)
+	if aerr == nil && okAdd {
+		aerr = d.filterAdd(filt)
+	}
+	d.EnableFilters(false)
+	cur = observe()
+	if aerr != nil || !okAdd {
+		bad("C15/overlap-add-failed", fmt.Sprintf("adding list 2 while a refresh of the same array is in flight: updated %v, error %v", okAdd, aerr))
+	}
+	if o := cur[2]; !o.exists || string(o.file) != normC || o.count != 2 {
+		bad("C15/overlap-stored-not-own-body", fmt.Sprintf("added list 2: its source delivered %q; stored %q (exists %v), count %d", txtC, o.file, o.exists, o.count))
+	}
+	steps = append(steps, vfApp("RSet", vfBool(false), vfN(2), vfBytes("list 2"), vfN(2), vfBool(true),
+		body(txtC), vfBool(true), vfBool(aerr != nil || !okAdd), vfList("lobs", obsTerms(prev, cur)), vfList("N", verdicts())))
+	prev = cur
+
+	close(srv.resume)
+	var rr refreshRes
+	select {
+	case rr = <-done:
+	case <-time.After(60 * time.Second):
+		t.Fatal("the refresh has not finished")
+	}
+	cur = observe()
+	if rr.netErr || rr.upd != 1 {
+		bad("C15/overlap-refresh-failed", fmt.Sprintf("the stalled refresh of list 1: network error %v, updated %d", rr.netErr, rr.upd))
+	}
+	if o := cur[1]; !o.exists || string(o.file) != newA {
+		bad("C15/overlap-stored-not-own-body", fmt.Sprintf("block list 1: its source delivered %q; stored %q (exists %v)", newA, o.file, o.exists))
+	} else if want := crc32.ChecksumIEEE([]byte(strings.ReplaceAll(newA, "\n", ""))); o.count != 3 || o.sum != want {
+		bad("C15/overlap-copy-back-lost", fmt.Sprintf("the refresh of list 1, in flight while list 2 was added to the same array, stored %q (3 rules, checksum %08x) and reported %d update(s), but the list's entry has %d rules, checksum %08x", newA, want, rr.upd, o.count, o.sum))
+	}
+	steps = append(steps, vfApp("RStep", vfBool(true), vfBool(false), vfBool(true), vfList("N", nil),
+		vfList("N * outcome", []string{vfPair(vfN(1), body(newA)), vfPair(vfN(2), body(txtC))}),
+		vfN(uint64(rr.upd)), vfBool(rr.netErr), vfList("lobs", obsTerms(prev, cur)), vfList("N", verdicts())))
+	prev = cur
+
+	// The same content again: unchanged checksums, nothing is rewritten.
+	setScripts(map[string]c15Script{"1": {Kind: "ok", Content: newA}, "2": {Kind: "ok", Content: txtC}})
+	st, cur, upd := pass(prev, newA)
+	if upd != 0 || cur[1].ino != prev[1].ino || cur[2].ino != prev[2].ino {
+		bad("C15/same-checksum-rewritten", fmt.Sprintf("both sources deliver what is stored, but the pass reports %d update(s); file of list 1 replaced: %v, of list 2: %v (entry of list 1: %d rules, checksum %08x)", upd, cur[1].ino != prev[1].ino, cur[2].ino != prev[2].ino, prev[1].count, prev[1].sum))
+	}
+	steps = append(steps, st)
+
+	var probes []string
+	for _, p := range c15Probes {
+		probes = append(probes, vfBytes(p))
+	}
+	out.Emit(vfCase{
+		Coq: vfApp("CRefresh",
+			vfList("N * bool * list N", []string{vfPair(vfPair(vfN(1), vfBool(true)), vfBytes("list 1")), vfPair(vfPair(vfN(2), vfBool(false)), vfBytes("list 2"))}),
+			vfList("N * bool * list N", nil),
+			vfList("list N", probes), vfList("rstep", steps)),
+		Nontrivial: true,
+		Classes:    []string{"overlap", "overlap-refresh-stalled-mid-line", "overlap-add-same-array", "overlap-then-same-content"},
+		MonitorOK:  monOK,
+		MonitorMsg: monMsg,
+		FindingKey: monKey,
+		Desc: map[string]any{"overlap": "forced refresh of block list 1 stalled after 30 bytes while list 2 is added to the same (full) array by update + filterAdd; then the same content again; GOMAXPROCS(1)",
+			"body_1": newA, "body_2": txtC},
+		Defs: defs,
+	})
+}
+
+// c15OverlapRemove (round 8): block lists 1 and 2 are stored; the forced
+// refresh of the block array is stalled by the source of list 1, the working
+// copies of both lists taken; meanwhile list 2 is removed through the real
+// handleFilteringRemoveURL (the updates loop is running for its asynchronous
+// rebuild; a synchronous rebuild follows for the observation); the source goes
+// on with changed content for list 1 (list 2's source still serves what was
+// stored, so its orphaned working copy writes nothing).  The copy-back has to
+// reach list 1 in the shortened array; the same content again is not
+// rewritten.  For the model the removal is set_url disabling list 2 (no rules
+// of it in force, not refreshed any more); list 2 is not observed afterwards.
+func c15OverlapRemove(t *testing.T, out *vfOut, srv *c15Server) {
+	prevProcs := runtime.GOMAXPROCS(1)
+	defer runtime.GOMAXPROCS(prevProcs)
+
+	oldA := "||p3.example^\n"
+	newA := "||" + strings.Repeat("a", 40) + ".example^\n||p2.example^\n"
+	txtB := "||p1.example^\n||" + strings.Repeat("b", 50) + ".example^\n"
+	const cutA = 30
+
+	dir := t.TempDir()
+	conf := &Config{
+		DataDir:                    dir,
+		HTTPClient:                 &http.Client{Timeout: 30 * time.Second, Transport: &http.Transport{DisableKeepAlives: true}},
+		FiltersUpdateIntervalHours: 24,
+		FilteringEnabled:           true,
+		ConfigModified:             func() {},
+		Filters: []FilterYAML{
+			{Enabled: true, URL: srv.url + "/l/1", Name: "list 1", Filter: Filter{ID: 1}},
+			{Enabled: true, URL: srv.url + "/l/2", Name: "list 2", Filter: Filter{ID: 2}},
+		},
+	}
+	d, err := New(conf, nil)
+	if err != nil {
+		t.Fatal(err)
+	}
+	defer d.Close()
+	d.EnableFilters(false)
+	d.Start()
+
+	monOK, monMsg, monKey := true, "", ""
+	bad := func(key, msg string) {
+		if monOK {
+			monOK, monMsg, monKey = false, msg, key
+		}
+	}
+	observe := func() map[int64]c15Obs {
+		m := map[int64]c15Obs{}
+		for i := range d.conf.Filters {
+			f := &d.conf.Filters[i]
+			o := c15Obs{count: f.RulesCount, sum: f.checksum, name: f.Name, enabled: f.Enabled, url: int64(f.ID)}
+			if b, rerr := os.ReadFile(f.Path(dir)); rerr == nil {
+				o.file, o.exists = b, true
+				if fi, serr := os.Stat(f.Path(dir)); serr == nil {
+					o.ino = fi.Sys().(*syscall.Stat_t).Ino
+				}
+			}
+			m[int64(f.ID)] = o
+		}
+		return m
+	}
+	verdicts := func() (vs []string) {
+		for _, p := range c15Probes {
+			res, cerr := d.CheckHost(p, dns.TypeA, &Settings{FilteringEnabled: true, ProtectionEnabled: true})
+			v := 0
+			switch {
+			case cerr != nil:
+				v = 9
+			case res.Reason == FilteredBlockList:
+				v = 1
+			case res.Reason == NotFilteredAllowList:
+				v = 2
+			}
+			vs = append(vs, vfN(uint64(v)))
+		}
+		return vs
+	}
+	var defs []vfDef
+	obsTerms := func(prev, cur map[int64]c15Obs) (ts []string) {
+		for _, id := range []int64{1, 2} {
+			if _, ok := cur[id]; ok {
+				ts = append(ts, c15ObsTerm(&defs, id, prev[id], cur[id]))
+			}
+		}
+		return ts
+	}
+	body := func(s string) string { return vfApp("OBody", vfBytes(s), vfBool(false)) }
+	setScripts := func(m map[string]c15Script) {
+		srv.mu.Lock()
+		for k := range srv.scripts {
+			delete(srv.scripts, k)
+		}
+		for k, v := range m {
+			srv.scripts[k] = v
+		}
+		srv.stalled, srv.resume = make(chan struct{}, 1), make(chan struct{})
+		srv.mu.Unlock()
+	}
+	pass := func(prev map[int64]c15Obs, a string) (step string, cur map[int64]c15Obs, upd int) {
+		upd, netErr, _ := d.tryRefreshFilters(true, false, true)
+		cur = observe()
+		return vfApp("RStep", vfBool(true), vfBool(false), vfBool(true), vfList("N", nil),
+			vfList("N * outcome", []string{vfPair(vfN(1), body(a)), vfPair(vfN(2), body(txtB))}),
+			vfN(uint64(upd)), vfBool(netErr), vfList("lobs", obsTerms(prev, cur)), vfList("N", verdicts())), cur, upd
+	}
+
+	var steps []string
+	prev := observe()
+	setScripts(map[string]c15Script{"1": {Kind: "ok", Content: oldA}, "2": {Kind: "ok", Content: txtB}})
+	st, cur, _ := pass(prev, oldA)
+	steps, prev = append(steps, st), cur
+
+	setScripts(map[string]c15Script{"1": {Kind: "ok", Content: newA, gateAt: cutA}, "2": {Kind: "ok", Content: txtB}})
+	type refreshRes struct {
+		upd    int
+		netErr bool
+	}
+	done := make(chan refreshRes, 1)
+	go func() {
+		var r refreshRes
+		r.upd, r.netErr, _ = d.tryRefreshFilters(true, false, true)
+		done <- r
+	}()
+	select {
+	case <-srv.stalled:
+	case <-time.After(60 * time.Second):
+		t.Fatal("the refresh has not reached its source")
+	}
+	for i := 0; i < 10; i++ {
+		runtime.Gosched()
+		time.Sleep(10 * time.Millisecond)
+	}
+	rec := httptest.NewRecorder()
+	d.handleFilteringRemoveURL(rec, httptest.NewRequest(http.MethodPost, "/control/filtering/remove_url",
+		strings.NewReader(fmt.Sprintf(`{"url":%q,"whitelist":false}`, srv.url+"/l/2"))))
+	d.EnableFilters(false)
+	cur = observe()
+	if _, still := cur[2]; rec.Code != http.StatusOK || still || len(d.conf.Filters) != 1 {
+		bad("C15/overlap-remove-failed", fmt.Sprintf("remove_url of list 2 while a refresh of the same array is in flight: status %d, %d lists left", rec.Code, len(d.conf.Filters)))
+	}
+	steps = append(steps, vfApp("RSet", vfBool(false), vfN(2), vfBytes("list 2"), vfN(2), vfBool(false),
+		"OOpenErr", vfBool(true), vfBool(false), vfList("lobs", obsTerms(prev, cur)), vfList("N", verdicts())))
+	prev = cur
+
+	close(srv.resume)
+	var rr refreshRes
+	select {
+	case rr = <-done:
+	case <-time.After(60 * time.Second):
+		t.Fatal("the refresh has not finished")
+	}
+	cur = observe()
+	if rr.netErr || rr.upd != 1 {
+		bad("C15/overlap-refresh-failed", fmt.Sprintf("the stalled refresh of list 1: network error %v, updated %d", rr.netErr, rr.upd))
+	}
+	if o := cur[1]; !o.exists || string(o.file) != newA {
+		bad("C15/overlap-stored-not-own-body", fmt.Sprintf("block list 1: its source delivered %q; stored %q (exists %v)", newA, o.file, o.exists))
+	} else if want := crc32.ChecksumIEEE([]byte(strings.ReplaceAll(newA, "\n", ""))); o.count != 2 || o.sum != want {
+		bad("C15/overlap-copy-back-lost", fmt.Sprintf("the refresh of list 1, in flight while list 2 was removed from the same array, stored %q (2 rules, checksum %08x) and reported %d update(s), but the list's entry has %d rules, checksum %08x", newA, want, rr.upd, o.count, o.sum))
+	}
+	if _, rerr := os.Stat(filepath.Join(dir, filterDir, "2.txt")); rerr == nil {
+		bad("C15/overlap-removed-list-stored-again", "the file of the removed list 2 is back after the refresh whose working copy outlived it, although its source served unchanged content")
+	}
+	steps = append(steps, vfApp("RStep", vfBool(true), vfBool(false), vfBool(true), vfList("N", nil),
+		vfList("N * outcome", []string{vfPair(vfN(1), body(newA)), vfPair(vfN(2), body(txtB))}),
+		vfN(uint64(rr.upd)), vfBool(rr.netErr), vfList("lobs", obsTerms(prev, cur)), vfList("N", verdicts())))
+	prev = cur
+
+	setScripts(map[string]c15Script{"1": {Kind: "ok", Content: newA}, "2": {Kind: "ok", Content: txtB}})
+	st, cur, upd := pass(prev, newA)
+	if upd != 0 || cur[1].ino != prev[1].ino {
+		bad("C15/same-checksum-rewritten", fmt.Sprintf("the source of list 1 delivers what is stored, but the pass reports %d update(s); file replaced: %v (entry: %d rules, checksum %08x)", upd, cur[1].ino != prev[1].ino, prev[1].count, prev[1].sum))
+	}
+	steps = append(steps, st)
+
+	var probes []string
+	for _, p := range c15Probes {
+		probes = append(probes, vfBytes(p))
+	}
+	out.Emit(vfCase{
+		Coq: vfApp("CRefresh",
+			vfList("N * bool * list N", []string{vfPair(vfPair(vfN(1), vfBool(true)), vfBytes("list 1")), vfPair(vfPair(vfN(2), vfBool(true)), vfBytes("list 2"))}),
+			vfList("N * bool * list N", nil),
+			vfList("list N", probes), vfList("rstep", steps)),
+		Nontrivial: true,
+		Classes:    []string{"overlap", "overlap-refresh-stalled-mid-line", "overlap-remove-same-array", "overlap-then-same-content"},
+		MonitorOK:  monOK,
+		MonitorMsg: monMsg,
+		FindingKey: monKey,
+		Desc: map[string]any{"overlap": "forced refresh of block lists 1 and 2 stalled in list 1's download while list 2 is removed through handleFilteringRemoveURL; then the same content again; GOMAXPROCS(1)",
+			"body_1": newA, "body_2": txtB},
+		Defs: defs,
+	})
 }
